@@ -31,6 +31,9 @@ type Opts struct {
 	Params     func(p *fsm.Params)
 	Tweak      func(c *lib.Config)
 	WithNested bool
+	// RootOrderBooks are sell orders the root chain starts with (state import): canopy's SetOrderBooks files every order
+	// under the chain id of its BOOK and funds that chain's escrow pool; the orders' own Committee field is not validated
+	RootOrderBooks *lib.OrderBooks
 }
 
 // Env is the pair of chains plus the keys.
@@ -96,7 +99,12 @@ func New(o Opts) (*Env, error) {
 	}
 	store.VerifPurgeProcessCaches()
 	var err error
-	if e.Root, err = node.NewChain(rs, 1, o.Tweak); err != nil {
+	withBooks := func(i int, no *node.Options) {
+		if no.Genesis != nil && o.RootOrderBooks != nil {
+			no.Genesis.OrderBooks = o.RootOrderBooks // the genesis state is rendered to genesis.json after this callback
+		}
+	}
+	if e.Root, err = node.NewChain(rs, 1, o.Tweak, withBooks); err != nil {
 		return nil, fmt.Errorf("root chain: %v", err)
 	}
 	if o.WithNested {
